@@ -208,6 +208,13 @@ inductive Fail where
 
 abbrev R := Except Fail
 
+instance {α : Type} [DecidableEq α] : DecidableEq (R α) := fun a b =>
+  match a, b with
+  | .ok x, .ok y => if h : x = y then isTrue (by rw [h]) else isFalse (by intro h'; cases h'; exact h rfl)
+  | .error x, .error y => if h : x = y then isTrue (by rw [h]) else isFalse (by intro h'; cases h'; exact h rfl)
+  | .ok _, .error _ => isFalse (by intro h; cases h)
+  | .error _, .ok _ => isFalse (by intro h; cases h)
+
 /-- a read of `n` bytes at `pos` -/
 def need (avail pos n : Nat) : R Nat :=
   if pos + n ≤ avail then .ok (pos + n) else .error .err
